@@ -129,6 +129,29 @@ def check_subrun_split(acc, rows, start, end, t, subruns, case):
 
 
 # ------------------------------------------------------------------ constructor
+def check_multirun_split(acc, rows, subruns, tt, early, case):
+    """A chunk combined from the chunks of several plain runs (what a superrun-capable plugin's input buffer holds:
+    Chunk.concatenate(..., allow_superrun=True), run_id None) obeys the same split laws as any other chunk."""
+    acc.count("split_multirun")
+    parts = []
+    for rid, se in subruns.items():
+        rr = [r for r in rows if se["start"] <= r[0] and r[1] <= se["end"]]
+        parts.append(mkchunk(arr(rr, "endtime"), se["start"], se["end"], run_id=rid))
+    try:
+        c = strax.Chunk.concatenate(parts, allow_superrun=True)
+    except Exception as e:  # noqa: BLE001
+        acc.viol("split(multi-run)", [f"concatenate(allow_superrun=True) of the runs' chunks failed: {e!r}"], case, e)
+        return
+    res, exc = None, None
+    try:
+        res = c.split(t=tt, allow_early_split=early)
+    except Exception as e:  # noqa: BLE001
+        exc = e
+    errs = cl.split_errors(c, tt, early, res, exc, strax.CannotSplit)
+    if errs:
+        acc.viol("split(multi-run)", errs, case, exc if exc is not None and not isinstance(exc, strax.CannotSplit) else None)
+
+
 def check_constructor(acc, rows, enc, start, end):
     """Chunk() must accept exactly the row sets lying inside [start, end) (<= 500 rows, sorted by time)."""
     data = arr(rows, enc, extra=[("id", np.int32, list(range(len(rows))))])
@@ -438,6 +461,13 @@ def run_unit(u):
             for tt in range(start - 1, end + 2):
                 case = {"rows": rows, "start": start, "end": end, "t": tt, "subruns": subruns}
                 check_subrun_split(acc, rows, start, end, tt, subruns, case)
+            # the same runs as separate plain chunks, combined (only possible when they are contiguous in time)
+            spans = list(subruns.values())
+            if all(x["end"] == y["start"] for x, y in zip(spans[:-1], spans[1:])):
+                for tt in range(start - 1, end + 2):
+                    for early in (False, True):
+                        check_multirun_split(acc, rows, subruns, tt, early,
+                                             {"op": "split(multi-run)", "rows": rows, "subruns": subruns, "t": tt, "early": early})
             acc.hashes.add(common.chash([rows, subruns]))
             if i < 1:
                 acc.samples.append({"op": "split(subruns)", "rows": rows, "subruns": subruns})
@@ -466,6 +496,8 @@ def replay(case):
     rows = [tuple(r) for r in case.get("rows", [])]
     if op == "split":
         do_split(acc, rows, case["enc"], case["start"], case["end"], case["t"], case["early"])
+    elif op == "split(multi-run)":
+        check_multirun_split(acc, rows, case["subruns"], case["t"], case["early"], case)
     elif op == "split(subruns)":
         check_subrun_split(acc, rows, case["start"], case["end"], case["t"], case["subruns"], case)
     elif op in ("concatenate", "merge"):
